@@ -57,6 +57,11 @@ impl Reservoir {
             }
         }
 
+        // Nothing could be read, there is nothing to sample from or into
+        if self.lake.is_empty() {
+            return self.lake;
+        }
+
         let mut threshold = E.powf(fastrand::f64().ln() / f64::from(self.k));
         // An index into the stream of the next sample to take
         let mut next = self.lake.len();
